@@ -275,10 +275,35 @@ fn exclusive_system(id: usize) -> impl FnMut(&mut World, Local<u32>) -> Result<(
         let view = world.syscall((!script.notake, script.take2), |In((t, tt)): In<(bool, bool)>, mut readers: Readers| sample(&mut readers, t, tt));
         emit(json!({"t":"run","r":r,"sys":id,"local":*local,"cap":capv,"view":view,
             "nt":script.notake as u8,"t2":script.take2 as u8,"el":[0, 0]}));
-        let mut c = world.commands();
         for (i, op) in script.ops.iter().enumerate()
         {
-            issue(op, r as i64, i + 1, &mut c, None, None);
+            if let Op::IRun(s) | Op::ISysEv(s, _) = op
+            {
+                if sys_entity(*s).is_none() { emit(json!({"t":"issue","r":r,"i":i+1,"op":op.to_json(),"ret":-9})); continue; }
+            }
+            match op
+            {
+                Op::IRun(_) | Op::ISysEv(_, _) | Op::IBc(_, _) | Op::IEEv(_, _, _) =>
+                {
+                    // an immediate call: it runs now, nested in this body
+                    emit(json!({"t":"issue","r":r,"i":i+1,"op":op.to_json(),"ret":0}));
+                    emit(json!({"t":"apply","r":r,"i":i+1}));
+                    match op
+                    {
+                        Op::IRun(s) => { bevy::ecs::world::Command::apply(SystemCommand(sys_entity(*s).unwrap()), world); }
+                        Op::ISysEv(s, p) => { world.send_system_event(SystemCommand(sys_entity(*s).unwrap()), P1(*p, None)); }
+                        Op::IBc(t, p) => { if *t == 1 { world.broadcast(B1(*p)); } else { world.broadcast(B2(*p)); } }
+                        Op::IEEv(e, t, p) =>
+                        {
+                            let e = ent_entity(*e);
+                            if *t == 1 { world.entity_event(e, B1(*p)); } else { world.entity_event(e, B2(*p)); }
+                        }
+                        _ => unreachable!(),
+                    }
+                    emit(json!({"t":"done","r":r,"i":i+1}));
+                }
+                _ => { let mut c = world.commands(); issue(op, r as i64, i + 1, &mut c, None, None); }
+            }
         }
         emit(json!({"t":"bodyend","r":r,"err":script.err}));
         if script.err { Err(IgnoredError) } else { Ok(()) }
@@ -531,6 +556,7 @@ fn issue(op: &Op, r: i64, i: usize, c: &mut Commands, acc: Option<&mut Access>, 
             ret = json!(ew.ew1.remove(c, bundle(b)) as i32);
         }
         Op::SetLocal(_) => {}
+        Op::IRun(_) | Op::ISysEv(_, _) | Op::IBc(_, _) | Op::IEEv(_, _, _) => panic!("immediate op outside an exclusive body: {:?}", op),
     }
     mark(c, "done", r, i);
     emit(json!({"t":"issue","r":r,"i":i,"op":op.to_json(),"ret":ret}));
